@@ -103,6 +103,27 @@ def corpus():
     # (witness of seeded change C15-c: item-by-item raw rendering)
     out.append({"mode": "special", "special": "list_escapes", "ops": _STD_OPS + [
         {"op": "type", "name": "Query", "incl": True, "desc": False}]})
+    # history on ONE Schema object: possibleTypes / types must follow an in-place edit (witness of
+    # seeded change C15-d: possibleTypes memoised per (schema, abstract type) and never invalidated)
+    hist_sdl = '''
+interface Node { id: ID }
+type A implements Node { id: ID, a: Int }
+type B implements Node { id: ID, b: Color }
+type C { c: Int }
+union U = B | A | C
+enum Color { RED GREEN }
+type Query { n: Node, u: U, a: A, x: Int }
+'''
+    tq = lambda n: {"op": "type", "name": n, "incl": True, "desc": False}  # noqa
+    out.append({"mode": "sdl_text", "sdl": hist_sdl, "ops": [
+        {"op": "intro", "incl": True, "desc": True}, tq("Node"), tq("U"),
+        {"op": "edit", "edit": "hide_type", "name": "A"},
+        {"op": "intro", "incl": True, "desc": True}, tq("Node"), tq("U"), tq("A"), tq("Query"),
+        {"op": "edit", "edit": "drop_interface", "type": "B", "name": "Node"},
+        tq("Node"), tq("B"),
+        {"op": "edit", "edit": "hide_enum_value", "type": "Color", "name": "GREEN"},
+        {"op": "edit", "edit": "hide_field", "type": "Query", "name": "x"},
+        {"op": "intro", "incl": False, "desc": False}, tq("Color"), tq("U")]})
     # row 40: how python_name-keyed input-object defaults show up
     out.append({"mode": "special", "special": "python_name", "ops": _STD_OPS})
     sdl = '''
@@ -192,10 +213,58 @@ def _wrapper_sweep(maxd):
         {"op": "type", "name": "Query", "incl": False, "desc": False}]}
 
 
+def _history_case(rng, tier, mode):
+    """k rounds on ONE Schema object: introspection + targeted __type probes,
+    then an in-place edit through the public visitor API; every round is
+    compared with the model on a fresh dump of the schema as it is then"""
+    from py_gql.exc import SchemaError
+    for _attempt in range(6):
+        desc = G.gen_desc(rng, big=True)
+        case = {"mode": mode, "desc": desc, "order_seed": rng.randint(0, 10 ** 6), "ops": []}
+        schema = G.build(case)
+        try:
+            schema.validate()
+        except SchemaError:
+            continue
+        ops = [{"op": "intro", "incl": True, "desc": True}]
+        edits = 0
+        for _round in range(2 if tier == "quick" else 4):
+            dump = G.dump_schema(schema)
+            abstract = [t["name"] for t in dump["types"] if t["kind"] in ("INTERFACE", "UNION")]
+            objs = [t["name"] for t in dump["types"] if t["kind"] == "OBJECT" and not t["name"].startswith("__")]
+            for n in abstract[:3] + ([rng.choice(objs)] if objs else []):
+                ops.append({"op": "type", "name": n, "incl": True, "desc": False})
+            edit = G.gen_edit(rng, dump)
+            if edit is None:
+                break
+            try:
+                G.apply_edit(schema, edit)
+                schema.validate()
+            except Exception:  # noqa: the edit made the schema invalid / is not applicable: history ends here
+                break
+            after = G.dump_schema(schema)
+            if G.dangling(after):
+                break
+            ops.append(dict(edit, op="edit"))
+            edits += 1
+            touched = [edit.get("type"), edit.get("name")]
+            ops.append({"op": "intro", "incl": rng.random() < 0.7, "desc": rng.random() < 0.5})
+            for n in [x for x in touched if x] + abstract[:3]:
+                ops.append({"op": "type", "name": n, "incl": True, "desc": False})
+        if edits:
+            case["ops"] = ops
+            return case
+    return None
+
+
 def generate(rng, tier):
     import random
     n = 20 if tier == "quick" else 120
     cases = [_wrapper_sweep(4 if tier == "quick" else 6)]
+    for i in range(5 if tier == "quick" else 40):
+        h = _history_case(random.Random(rng.randint(0, 10 ** 9)), tier, "code" if i % 2 else "sdl")
+        if h is not None:
+            cases.append(h)
     for i in range(n):
         desc = G.gen_desc(rng, big=(tier != "quick" and i % 5 == 0))
         mode = "sdl" if i % 2 == 0 else "code"
@@ -480,9 +549,15 @@ def _parses(data):
 
 def run_impl(case):
     schema = G.build(case)
-    dump = G.dump_schema(schema)
+    dumps = [G.dump_schema(schema)]
     results, diffs = [], []
     for i, op in enumerate(case["ops"]):
+        if op["op"] == "edit":
+            # in place, on the one Schema object of this case
+            G.apply_edit(schema, op)
+            dumps.append(G.dump_schema(schema))
+            results.append({"edit": True, "dangling": G.dangling(dumps[-1])})
+            continue
         text, root, disabled = _op_query(op)
         per = []
         for k, (name, ex, rt) in enumerate(CONFIGS):
@@ -491,13 +566,15 @@ def run_impl(case):
         for (name, _e, _r), r in zip(CONFIGS[1:], per[1:]):
             if json.dumps(r, default=str) != json.dumps(per[0], default=str):
                 diffs.append({"op": i, "config": name, "result": json.loads(json.dumps(r, default=str))})
-    obs = {"dump": dump, "results": results, "runtime_diffs": diffs, "reparse": [], "parses": [],
-           "typerefs": [], "guard": []}
+    obs = {"dump": dumps[0], "dumps": dumps, "results": results, "runtime_diffs": diffs, "reparse": [],
+           "parses": [], "typerefs": [], "guard": []}
     first = results[0] if case["ops"] and case["ops"][0] == {"op": "intro", "incl": True, "desc": True} else None
     if first is not None and "data" in first and "errors" not in first:
-        obs["reparse"] = _reparse(schema, first["data"], obs["guard"])
+        # (computed on the schema object after the whole history for history cases: only when no edit)
+        if len(dumps) == 1:
+            obs["reparse"] = _reparse(schema, first["data"], obs["guard"])
         obs["parses"] = _parses(first["data"])
-        obs["typerefs"] = _typerefs(dump, first["data"])
+        obs["typerefs"] = _typerefs(dumps[0], first["data"])
     return obs
 
 
@@ -517,15 +594,31 @@ def _obs_term(op, r):
         return "(OIntroDisabled %s)" % d
     if op["op"] == "type":
         return "(OType %s %s %s)" % (G.cflags(op["incl"] is True, op["desc"]), ser.cstr(op["name"]), d)
+    if op["op"] == "edit":
+        return "OEdit"
     return "(OProbe %s %s %s %s %s)" % (ser.cbool(op["disabled"]), ser.cbool(op["mutation"]),
                                         ser.cpv(op["root"]), ser.clist(op["sels"], G.cpsel), d)
 
 
 def to_coq(case, obs):
-    terms = [_obs_term(op, r) for op, r in zip(case["ops"], obs["results"])]
-    terms += ["(OParse %s %s)" % (ser.cstr(text), ser.copt(j, _clit)) for text, j in obs.get("parses", [])]
-    terms += ["(OGuard %s %s %s)" % (G.cref(t), ser.cpv(v), ser.cbool(ok)) for t, v, ok in obs.get("guard", [])]
-    return "(%s, %s)" % (G.cschema(obs["dump"]), ser.clist(terms, lambda x: x))
+    """segments (dump, observations) split at the edits; the extra
+    observations about the first answer come last, with the first dump, so that
+    positions in the flattened list are positions in case["ops"]"""
+    dumps = obs.get("dumps") or [obs["dump"]]
+    segs, cur, k = [], [], 0
+    for op, r in zip(case["ops"], obs["results"]):
+        if op["op"] == "edit":
+            cur.append("OEdit")
+            segs.append((dumps[k], cur))
+            cur, k = [], k + 1
+        else:
+            cur.append(_obs_term(op, r))
+    segs.append((dumps[k], cur))
+    extra = ["(OParse %s %s)" % (ser.cstr(text), ser.copt(j, _clit)) for text, j in obs.get("parses", [])]
+    extra += ["(OGuard %s %s %s)" % (G.cref(t), ser.cpv(v), ser.cbool(ok)) for t, v, ok in obs.get("guard", [])]
+    if extra:
+        segs.append((dumps[0], extra))
+    return ser.clist(segs, lambda s: "(%s, %s)" % (G.cschema(s[0]), ser.clist(s[1], lambda x: x)))
 
 
 def show_expr(case, obs):
@@ -540,7 +633,7 @@ def nontrivial(case, obs):
     has_dep = any(f["deprecated"] for t in user for f in t.get("fields", [])) or any(
         v["deprecated"] for t in user for v in t.get("values", []))
     has_abs = any(t["kind"] in ("INTERFACE", "UNION") for t in user) or len(d["directives"]) > 3
-    return has_default and has_dep and has_abs and all("data" in r for r in obs["results"])
+    return has_default and has_dep and has_abs and all("data" in r or "edit" in r for r in obs["results"])
 
 
 def canonical(case):
@@ -557,6 +650,10 @@ def direct_checks(case, obs):
         out.append(("runtime-independent: op %d differs under %s" % (d["op"], d["config"]), None))
     for r in obs["reparse"]:
         out.append(("default-value-parses-back: %s %s" % (r["where"], r["problem"]), r["finding"]))
+    for i, r in enumerate(obs["results"]):
+        if r.get("edit") and r.get("dangling"):
+            out.append(("in-place edit left a reference to a type that is no longer registered (op %d: %s)"
+                        % (i, r["dangling"]), None))
     for r in obs.get("typerefs", []):
         out.append(("type-reference-reads-back: %s" % r["where"], r["finding"]))
     return out
@@ -594,7 +691,19 @@ def shrink(case, is_bad):
     if not r:
         return cur
     idx, direct = r
+    idx = [i for i in idx if i < len(cur["ops"])]
     if idx and not direct:
+        if any(o["op"] == "edit" for o in cur["ops"]):
+            # a history: the failure may need the earlier rounds; try the edits + failing ops, then the
+            # prefix up to the first failing op, and keep whichever still disagrees
+            a = dict(cur, ops=[o for i, o in enumerate(cur["ops"]) if (o["op"] == "edit" and i < idx[0]) or i in idx[:1]])
+            b = dict(cur, ops=cur["ops"][:idx[0] + 1])
+            for cand in (a, b):
+                rr = _bad_ops(cand)
+                if rr and rr[0]:
+                    cur = copy.deepcopy(cand)
+                    break
+            return cur
         cur["ops"] = [cur["ops"][i] for i in idx[:2]]
     budget = 10
     if "desc" in cur:
@@ -619,7 +728,7 @@ def extra_evidence(cases, obss):
     for c, o in zip(cases, obss):
         modes[c["mode"]] = modes.get(c["mode"], 0) + 1
         for op in c["ops"]:
-            k = op["op"] + ("/disabled" if op.get("disabled") else "")
+            k = (op["op"] + ":" + op["edit"]) if op["op"] == "edit" else op["op"] + ("/disabled" if op.get("disabled") else "")
             ops[k] = ops.get(k, 0) + 1
         byname = {t["name"]: t for t in o["dump"]["types"]}
 
